@@ -362,7 +362,11 @@ def gen_paxis_case(rng):
             "targets": B.tgt(kind, [v for _, v in tg]), "ds": {"coords": coords, "vars": vars_}}
     if explicit:
         case["periodic_coordinates"] = {cname: P} if period is not None else {}
-        case["periodic_data"] = {nm: [Pd, Pd] for nm, inf in info.items() if inf["periodic"]}
+        case["periodic_data"] = {}
+        for nm, inf in info.items():
+            if inf["periodic"]:
+                inf["disc"] = rng.choice([Pd, Pd, Pd / 2])
+                case["periodic_data"][nm] = [Pd, inf["disc"]]
     meta = {"grid": grid, "asc": asc, "desc": desc, "kind": kind, "cname": cname, "nearest": nearest, "tg": tg,
             "arrays": arrays, "info": info, "period": period, "Pd": Pd, "mode": mode, "explicit": explicit}
     return case, meta
@@ -513,8 +517,12 @@ def stream_paxis(ctx, ncases):
                 vr = np.array([[list(v) for v in r] for r in vec_m], dtype="float64")     # [target][passive][2]
                 pshape = [s for i, s in enumerate(shape) if i != inf["axis"]]
                 vr = np.moveaxis(vr.reshape([len(xs)] + pshape + [2]), 0, inf["axis"]).reshape(-1, 2)
+                # [0, P) is promised for direction variables (declared discontinuity = period); other angular
+                # data (longitude: discontinuity 180) only have to come back as an equivalent angle
+                is_dir = ("direction" in nm.lower()) if not m["explicit"] else (inf.get("disc") == Pd)
+                lo, hi = (0.0, Pd) if is_dir else (-float("inf"), float("inf"))
                 if not check_angular(ctx, dict(rep, variable=nm), "interpolate_dataset_along_axis %s" % nm, got, want,
-                                     [tuple(v) for v in vr], Pd, 0.0, Pd):
+                                     [tuple(v) for v in vr], Pd, lo, hi):
                     break
             else:
                 badi = B.close_arrays(got, want, B.data_scale(a))
@@ -631,7 +639,7 @@ def stream_pspectra(ctx, ncases):
                     break
             if bad:
                 continue
-            check_angular(ctx, rep, "%s longitude" % rep["op"], got, want, vec, 360.0, 0.0, 360.0)
+            check_angular(ctx, rep, "%s longitude" % rep["op"], got, want, vec, 360.0, -float("inf"), float("inf"))
 
 
 # ---------------------------------------------------------------------------------------------
